@@ -146,6 +146,8 @@ func TestC19(t *testing.T) {
 	defer out.close()
 	rng := newRng(19)
 	// marshalling: all uint8/uint16, boundary + random wider
+	var keptTxt, keptJS []byte
+	var keptN uint64
 	marsh := func(w int, n uint64) {
 		var txt, js []byte
 		switch w {
@@ -164,6 +166,13 @@ func TestC19(t *testing.T) {
 		}
 		out.emit("marshal", "umt", []string{hx(n)}, hexBytes(txt))
 		out.emit("marshal", "umj", []string{hx(n)}, hexBytes(js))
+		// the results of the PREVIOUS call are looked at only now, after this one (a caller may
+		// keep what Marshal returned)
+		if keptTxt != nil {
+			out.emit("kept", "umt", []string{hx(keptN)}, hexBytes(keptTxt))
+			out.emit("kept", "umj", []string{hx(keptN)}, hexBytes(keptJS))
+		}
+		keptTxt, keptJS, keptN = txt, js, n
 		// String() is the same decimal text
 		var str string
 		switch w {
